@@ -68,6 +68,11 @@ def wedge_oracle(ix: Index, scn: dict) -> list[Violation]:
             if op is None:
                 continue
             inflight.pop(op.s0, None)
+            if op.do == "disconnect" and op.ok:
+                # "... after disconnect() was called at any stage": whatever phase call was in flight when a disconnect()
+                # returned is over as far as the client is concerned (it may not have resumed yet to find that out)
+                for k in [k for k, o in inflight.items() if conn_state.get(o.conn) in (None, "CLOSED")]:
+                    inflight.pop(k, None)
             m = MODEL.pop(id(op), None)
             if m is None:
                 continue
@@ -224,6 +229,37 @@ def gen_stale_handle(rng: random.Random) -> dict:
     return {"family": "client-history", "kind": "stale-handle", "knobs": gen_knobs(rng), "client": client, "device": device, "net": {"cuts": gen_cuts(rng), "c2d_latency": pick(rng, [0.0, 0.001]), "d2c_latency": [pick(rng, [0.0, 0.001])], "connect": {"10.0.0.5": [{"outcome": "ok", "latency": pick(rng, [0.0, 0.001, 0.05])}]}}, "actors": actors, "events": events, "end": 200.0}
 
 
+def gen_disconnect_behind_fault(rng: random.Random) -> list[dict]:
+    """A fault closes the connection while a connect phase is waiting (hello outstanding); another part of the application
+    calls disconnect() and then start_connection() - in the same turn as the fault, one or two turns later, before or after
+    the failing phase has resumed. disconnect() was called: the new attempt is accepted."""
+    from ..engine import run_scenario
+
+    client: dict = {"addresses": ["10.0.0.5"], "keepalive": 20.0}
+    device: dict = {}
+    gen_transport(rng, client, device, noise_p=0.25)
+    device["replies"] = {"HelloRequest": ["silent", "default"]}
+    force = rng.random() < 0.5
+    base = {"family": "client-history", "kind": "disconnect-behind-fault", "knobs": gen_knobs(rng), "client": client, "device": device,
+            "net": {"cuts": {"mode": "coalesce"}, "c2d_latency": 0.001, "d2c_latency": [0.001], "connect": {"10.0.0.5": [{"outcome": "ok", "latency": 0.001}]}},
+            "actors": [{"id": "a0", "at": {"t": 0.0}, "steps": [{"do": "connect", "login": False}]},
+                       {"id": "other", "at": "manual", "steps": [{"do": "disconnect", "force": force}, {"do": "start"}, {"do": "sleep", "d": 0.5}, {"do": "disconnect", "force": True}]}],
+            "events": [{"at": {"t": 1.0}, "do": "fault", "kind": pick(rng, ["fin", "rst", "eio"]), "latency": 0.0}], "end": 100.0}
+    probe = run_scenario(base)
+    t_fault = next((ev[1] for ev in probe.history if ev[3] in ("recv_eof", "recv_err") ), None)
+    if t_fault is None:
+        return [base]
+    out = []
+    import copy
+
+    for n in range(t_fault - 1, t_fault + 4):
+        for phase in ("pre", "post"):
+            v = copy.deepcopy(base)
+            v["events"].append({"at": {"turn": n}, "do": "start_actor", "actor": "other", "phase": phase})
+            out.append(v)
+    return out
+
+
 class C19(CheckBase):
     pid = "C19"
     level = "exploration"
@@ -233,6 +269,8 @@ class C19(CheckBase):
     def cases(self, rng: random.Random, tier: str, idx: int) -> Iterable[dict]:
         if idx % 10 == 7:
             yield gen_stale_handle(rng)
+        elif idx % 50 == 3:
+            yield from gen_disconnect_behind_fault(rng)
         else:
             yield gen_c19(rng)
 
